@@ -61,6 +61,23 @@ def build():
     zt = strip_comments(read("src/zonetree/types.rs"))
     one(r"if\s+start_serial\s*==\s*end_serial\s*\|\|\s*end_serial\s*<\s*start_serial\s*\{", zt, "diff builder serial range check")
     defs.append(("diff_range_rejects_eq_or_serial_lt", "bool", "true"))
+    # date notation: both parsers cast the epoch seconds to u32 (wraps mod 2^32)
+    casts = re.findall(r"Self\(\s*Serial\(\s*time\.as_second\(\)\s+as\s+u32\s*\)\s*\)", ts)
+    if len(casts) != 2:
+        raise GenError("Timestamp date notation: expected two `Serial(time.as_second() as u32)` sites (scan and from_str), found %d" % len(casts))
+    if "clamp(" in ts[ts.find("impl Timestamp"):ts.find("impl fmt::Display for Timestamp")]:
+        raise GenError("Timestamp date notation clamps instead of wrapping")
+    defs.append(("date_cast_wraps", "bool", "true"))
+    # the derived comparison operators must not be overridden
+    pc_impl = impl_body(src, r"impl\s+cmp::PartialOrd\s+for\s+Serial")
+    for op in ("lt", "le", "gt", "ge"):
+        if re.search(r"\bfn\s+%s\b" % op, pc_impl):
+            raise GenError("PartialOrd for Serial overrides `%s` (operators must derive from partial_cmp)" % op)
+    tp_impl = impl_body(ts, r"impl\s+cmp::PartialOrd\s+for\s+Timestamp")
+    for op in ("lt", "le", "gt", "ge"):
+        if re.search(r"\bfn\s+%s\b" % op, tp_impl):
+            raise GenError("PartialOrd for Timestamp overrides `%s`" % op)
+    defs.append(("operators_derive_from_partial_cmp", "bool", "true"))
     return defs
 
 if __name__ == "__main__":
